@@ -704,6 +704,19 @@ def _correlated_guard(ctx, f, cfg, G, S) -> bool:
     for a in ancestors(S):
         if isinstance(a, ast.If) and isinstance(a.test, ast.Name) and a.test.id == c and any(contains(b, S) for b in a.body):
             return True
+    # conditional-expression form: every csr_matrix template of S sits in the true arm of `<...> if c else <...>`
+    consts = [n for n in ast.walk(S) if isinstance(n, ast.Constant) and isinstance(n.value, str) and "csr_matrix" in n.value]
+    if consts:
+        def under_true_arm(n):
+            p_ = parent(n)
+            child = n
+            while p_ is not None and p_ is not S:
+                if isinstance(p_, ast.IfExp) and isinstance(p_.test, ast.Name) and p_.test.id == c and contains(p_.body, n):
+                    return True
+                child, p_ = p_, parent(p_)
+            return isinstance(S, ast.IfExp)
+        if all(under_true_arm(n) for n in consts):
+            return True
     return False
 
 
